@@ -274,7 +274,7 @@ fn run(line: &str) -> String {
     let cmd = t.word();
     let mut out = String::new();
     match cmd {
-        "text" => {
+        "text" | "ctext" => {
             let s = t.string();
             match verif::lex(&s) {
                 Err(e) => out.push_str(&format!("lex err {}", err_kind(&e))),
@@ -284,13 +284,13 @@ fn run(line: &str) -> String {
                 }
             }
         }
-        "toks" => {
+        "toks" | "ctoks" => {
             let n = t.usize();
             let ts: Vec<Token> = (0..n).map(|_| tok_of(t.word())).collect();
             out.push_str(&format!("lex ok {}", show_toks(&ts)));
             after_tokens(ts, &mut out);
         }
-        "tree" => {
+        "tree" | "ctree" => {
             let e = read_expr(&mut t);
             out.push_str(&format!("tree {}", expr_str(&e)));
             after_tree(e, None, &mut out);
